@@ -293,13 +293,8 @@ fn process_job(job: &Value, seed: u64, vectors: usize, ample_gas: usize) -> Vec<
     outs
 }
 
-fn main() {
-    let args: Vec<String> = std::env::args().collect();
-    if args.len() < 4 || args[1] != "batch" {
-        eprintln!("usage: sierra_tool batch <jobs.json> <outdir>");
-        std::process::exit(2);
-    }
-    if std::env::var("CVH_LOUD").is_err() { quiet_panics(); }
+fn run_worker(spec_path: &str, outdir: &str) {
+    let args: Vec<String> = vec![String::new(), String::new(), spec_path.to_string(), outdir.to_string()];
     let spec: Value = serde_json::from_str(&std::fs::read_to_string(&args[2]).unwrap()).unwrap();
     let outdir = &args[3];
     std::fs::create_dir_all(outdir).unwrap();
@@ -313,9 +308,12 @@ fn main() {
     let trace = Mutex::new(NdjsonWriter::create(&format!("{outdir}/trace.ndjson")));
     let stages = Mutex::new(NdjsonWriter::create(&format!("{outdir}/stages.ndjson")));
     let counts = Mutex::new((0usize, 0usize, 0usize)); // programs accepted, rejected, runs
+    let done = Mutex::new(std::fs::OpenOptions::new().create(true).append(true).open(format!("{outdir}/done.txt")).unwrap());
     let pool = rayon::ThreadPoolBuilder::new().num_threads(threads).stack_size(64 << 20).build().unwrap();
     pool.install(|| {
         jobs.par_iter().for_each(|job| {
+            let tix = rayon::current_thread_index().unwrap_or(0);
+            let _ = std::fs::write(format!("{outdir}/inflight.{tix}"), job["id"].as_str().unwrap_or(""));
             let outs = process_job(job, seed, vectors, ample_gas);
             for o in outs {
                 let accepted = o.prog["accepted"] == true;
@@ -342,6 +340,13 @@ fn main() {
                     s.write(e);
                 }
             }
+            {
+                use std::io::Write;
+                let mut d = done.lock().unwrap();
+                let _ = writeln!(d, "{}", job["id"].as_str().unwrap_or(""));
+                let _ = d.flush();
+            }
+            let _ = std::fs::remove_file(format!("{outdir}/inflight.{tix}"));
         })
     });
     progs.into_inner().unwrap().finish();
@@ -350,4 +355,119 @@ fn main() {
     stages.into_inner().unwrap().finish();
     let c = counts.lock().unwrap();
     println!("sierra_tool: accepted={} rejected={} runs={}", c.0, c.1, c.2);
+}
+
+/// Parent: split the jobs over worker processes (memory-limited), restart a worker that died on
+/// the jobs it had not finished, record the jobs that were in flight when it died.
+fn main() {
+    let args: Vec<String> = std::env::args().collect();
+    if args.len() < 4 || (args[1] != "batch" && args[1] != "worker") {
+        eprintln!("usage: sierra_tool batch <jobs.json> <outdir>");
+        std::process::exit(2);
+    }
+    if std::env::var("CVH_LOUD").is_err() { quiet_panics(); }
+    if args[1] == "worker" {
+        run_worker(&args[2], &args[3]);
+        return;
+    }
+    let spec: Value = serde_json::from_str(&std::fs::read_to_string(&args[2]).unwrap()).unwrap();
+    let outdir = &args[3];
+    std::fs::create_dir_all(outdir).unwrap();
+    let jobs = spec["jobs"].as_array().unwrap().clone();
+    let threads = spec.get("threads").and_then(|x| x.as_u64()).unwrap_or(14) as usize;
+    let n_workers = spec.get("workers").and_then(|x| x.as_u64()).unwrap_or(4).max(1) as usize;
+    let n_workers = n_workers.min(jobs.len().max(1));
+    let mem_kb = spec.get("worker_mem_kb").and_then(|x| x.as_u64()).unwrap_or(14_000_000);
+    let exe = std::env::current_exe().unwrap();
+    let mut slices: Vec<Vec<Value>> = vec![vec![]; n_workers];
+    for (i, j) in jobs.into_iter().enumerate() {
+        slices[i % n_workers].push(j);
+    }
+    let crashed = Mutex::new(Vec::<Value>::new());
+    std::thread::scope(|sc| {
+        for (w, slice) in slices.iter().enumerate() {
+            let crashed = &crashed;
+            let spec = &spec;
+            let exe = &exe;
+            sc.spawn(move || {
+                let wdir = format!("{outdir}/w{w}");
+                std::fs::create_dir_all(&wdir).unwrap();
+                let mut remaining: Vec<Value> = slice.clone();
+                for attempt in 0..40 {
+                    if remaining.is_empty() {
+                        break;
+                    }
+                    let adir = format!("{wdir}/a{attempt}");
+                    std::fs::create_dir_all(&adir).unwrap();
+                    let mut sp = spec.clone();
+                    sp["jobs"] = Value::Array(remaining.clone());
+                    sp["threads"] = json!((threads / n_workers).max(1));
+                    let sp_path = format!("{adir}/jobs.json");
+                    std::fs::write(&sp_path, sp.to_string()).unwrap();
+                    let cmd = format!("ulimit -v {mem_kb}; exec {} worker {} {}", exe.display(), sp_path, adir);
+                    let st = std::process::Command::new("bash").arg("-c").arg(&cmd).stdout(std::process::Stdio::null()).status();
+                    let ok = st.map(|s| s.success()).unwrap_or(false);
+                    if ok {
+                        break;
+                    }
+                    // died: which jobs were finished / in flight?
+                    let done: std::collections::BTreeSet<String> = std::fs::read_to_string(format!("{adir}/done.txt"))
+                        .unwrap_or_default()
+                        .lines()
+                        .map(|l| l.to_string())
+                        .collect();
+                    let mut inflight: std::collections::BTreeSet<String> = Default::default();
+                    if let Ok(rd) = std::fs::read_dir(&adir) {
+                        for e in rd.flatten() {
+                            if e.file_name().to_string_lossy().starts_with("inflight.") {
+                                if let Ok(t) = std::fs::read_to_string(e.path()) {
+                                    inflight.insert(t);
+                                }
+                            }
+                        }
+                    }
+                    for id in &inflight {
+                        crashed.lock().unwrap().push(json!({"id": id, "suspects": inflight.len()}));
+                    }
+                    remaining.retain(|j| {
+                        let id = j["id"].as_str().unwrap_or("").to_string();
+                        !done.contains(&id) && !inflight.contains(&id)
+                    });
+                }
+            });
+        }
+    });
+    // merge
+    let mut totals = (0usize, 0usize, 0usize);
+    for name in ["progs.ndjson", "rejected.ndjson", "trace.ndjson", "stages.ndjson"] {
+        use std::io::Write;
+        let mut out = std::io::BufWriter::new(std::fs::File::create(format!("{outdir}/{name}")).unwrap());
+        for w in 0..n_workers {
+            for attempt in 0..40 {
+                let p = format!("{outdir}/w{w}/a{attempt}/{name}");
+                if let Ok(text) = std::fs::read_to_string(&p) {
+                    // a worker that died may have left a torn last line: keep complete JSON lines only
+                    for line in text.lines() {
+                        if serde_json::from_str::<Value>(line).is_ok() {
+                            out.write_all(line.as_bytes()).unwrap();
+                            out.write_all(b"\n").unwrap();
+                            match name {
+                                "progs.ndjson" => totals.0 += 1,
+                                "rejected.ndjson" => totals.1 += 1,
+                                "trace.ndjson" if line.contains("\"e\":\"reset\"") => totals.2 += 1,
+                                _ => {}
+                            }
+                        }
+                    }
+                }
+            }
+        }
+        out.flush().unwrap();
+    }
+    let crashed = crashed.into_inner().unwrap();
+    std::fs::write(format!("{outdir}/crashed.json"), serde_json::to_string(&crashed).unwrap()).unwrap();
+    for w in 0..n_workers {
+        let _ = std::fs::remove_dir_all(format!("{outdir}/w{w}"));
+    }
+    println!("sierra_tool: accepted={} rejected={} runs={} crashed_jobs={}", totals.0, totals.1, totals.2, crashed.len());
 }
